@@ -26,7 +26,7 @@ OPEN = {
 	'C05': 'Idempotence of prepare() is proved for requests and for responses other than to HEAD (`prepareRequest_idem`, `prepareResponse_idem`); the HEAD exception is finding F46. Non-destructiveness of body sources (file positions, generator buffering) is behaviour of Python objects: decided by repeated composition on the real code.',
 	'C06': 'Relies on C11 (`abspath_clean`, `abspath_fixed`).',
 	'C07': 'The HTTP/1.0 + chunked combination is finding F6.',
-	'C08': 'Open: `parse (compose h) = h` for whole collections as one theorem (`parse_line_step` is its inductive step; whole op sequences are compared with the code).',
+	'C08': 'The round-trip clause is a theorem (`compose_parse_roundtrip`, `Proofs/HeadersRoundtrip.lean`) for collections without list-valued fields; those (Set-Cookie, WWW-Authenticate, Proxy-Authenticate) are composed field-specifically and judged by the oracle.',
 	'C09': 'Open: whole elements and lists (several parameters, quote parity across parameters, RFC 2231 continuations) as theorems; they are tied by correspondence for the four element classes.',
 	'C10': 'Open: `parse (compose c) = c` for all eight components at once (the three structured cuts are proved; the assembly is correspondence/oracle). IPv6 literals and IDN hosts go through socket/idna: oracle only.',
 	'C11': 'The RFC clause is now a theorem (`abspath_eq_rfc`, `normalize_path_rfc`; `Proofs/Rfc.lean`, `Proofs/RfcAbspath.lean`): the buffer-rewriting loop of RFC 3986 §5.2.4 is shown to be a stack machine on segments, and `abspath` (whose stack also holds, and may pop, the root segment) is related to it. Trusted there: the transcription of the RFC text.',
@@ -35,7 +35,7 @@ OPEN = {
 	'C14': 'zlib itself is a parameter. JSON and message/http: oracle on the real code.',
 	'C15': 'Partial by nature: time zone, DST and locale are runtime environment. The model has no such input (that is the claim); the correspondence runs the real code in child processes under 6 zones × the installed locales and requires the one model answer. RFC 850 / asctime round trips: correspondence + example, no general theorem.',
 	'C16': '',
-	'C17': 'Open: the whole-field wire round trip (all parameters at once) as a theorem; `parseAtom_formatParam` is the one-parameter statement. Values with comma, quote, backslash: F20c.',
+	'C17': 'The parameter list of the field round-trips as a theorem (`params_roundtrip`); the dictionary lookups after it are tied by correspondence. Values with comma, quote, backslash: F20c.',
 	'C18': '',
 	'C19': 'q texts that float() accepts outside the RFC grammar (`1e3`, `nan`) are outside the model and judged by the oracle.',
 	'C20': 'The float square root in the overlap test is modelled exactly in integers and validated by the correspondence.',
